@@ -1,0 +1,17 @@
+//go:build verif
+
+package gohlslib
+
+// This file exists only in builds with the "verif" tag. It lets the verification harness in
+// /verif observe whether the lock of the muxer's path table is held. It adds no behaviour to
+// the package.
+
+// VerifServerMutexFree reports whether the lock of the path table (muxerServer.mutex) can be
+// acquired for writing right now, i.e. whether no reader and no writer holds it.
+func VerifServerMutexFree(m *Muxer) bool {
+	if m.server.mutex.TryLock() {
+		m.server.mutex.Unlock()
+		return true
+	}
+	return false
+}
